@@ -26,7 +26,7 @@ func init() {
 	oracles["c13.all"] = oracleC13All
 	properties["C13"] = &Property{
 		ID:       "C13",
-		LeanMods: []string{"CrsProps.C13"},
+		LeanMods: []string{"CrsProps.C13", "CrsProps.CliRun"},
 		Corr:     "K8 (util.processYaml vs Crs.Renumber.processYaml), K10 (renumber-tests binary on a sandbox tree)",
 		Rule: "YAML test files generated from a line grammar (meta block, tests with test_id and/or legacy test_title in several spellings, " +
 			"near-miss keys, other lines, trailing blank/white-space/Unicode-space lines, CRLF, missing final newline); a case is non-trivial when the file " +
@@ -360,9 +360,14 @@ func genC13Trees(r *rand.Rand, n int) []Case {
 			}
 		}
 		files := treeArgs(t)
-		cases = append(cases, Case{Kind: "tree:renumber-all",
-			Ops:     []Op{{"cli.renumberAll", append([][]byte{[]byte("0")}, files...)}, {"cli.renumberAll", append([][]byte{[]byte("1")}, files...)}},
-			Oracles: []Op{{"c13.all", files}}})
+		ops := []Op{{"cli.renumberAll", append([][]byte{[]byte("0")}, files...)}, {"cli.renumberAll", append([][]byte{[]byte("1")}, files...)}}
+		// the same through the invocation model: --all with and without --check under every output format (the format is
+		// no write mode), and invocations the command refuses
+		for _, inv := range [][3]string{{"", "a", ""}, {"=github", "a", ""}, {"=text", "a", ""}, {"=github", "ac", ""}, {"", "ac", ""}, {"=GitHub", "a", ""}, {"", "", ""}, {"", "a", "\x1f920100"}, {"", "", "\x1f-"}} {
+			args := [][]byte{[]byte(inv[0]), []byte("renumber"), []byte(inv[1]), {}, []byte("0"), []byte("2031"), []byte("LINT"), {}, {}, {}, {}, {}, {}, []byte(inv[2])}
+			ops = append(ops, Op{"cli.run", append(args, files...)})
+		}
+		cases = append(cases, Case{Kind: "tree:renumber-all", Ops: ops, Oracles: []Op{{"c13.all", files}}})
 	}
 	return cases
 }
